@@ -3,7 +3,7 @@
 Static part (the proof): translate/effects2v.py regenerates coq/Gen/Effects.v (the effect
 skeleton of every function of EoN/simulation.py, EoN/analytic.py) from /repo's working
 tree; coq/Props/C19.v is recompiled over it (generated obligation closed by vm_compute,
-soundness of the checker in Proofs/EffectsP.v); the per-function verdict (parameters that
+soundness of the checker in Proofs/EffectsSound*.v); the per-function verdict (parameters that
 may be modified, with source lines) is computed by the same checker.
 
 Dynamic part (the tie): every public entry point is called on small inputs with a deep
@@ -18,8 +18,13 @@ CLAIM = dict(
          "base) run inside Coq over coq/Gen/Effects.v -- the effect skeleton of all 132 functions of EoN/simulation.py, analytic.py, regenerated "
          "from /repo on every run by the fail-closed translator translate/effects2v.py -- finds no write of any public entry point that can reach "
          "an object, or the buffer of an object, that existed before the call, except the confirmed defects (x.shape= on caller arrays). The "
-         "abstract heap semantics of the effect language is defined in Coq; soundness of the checker w.r.t. it is only PARTLY mechanised (write "
-         "step, environment order, aliasing: theorems *_partial; the rest of the invariant-preservation proof is stated in a comment, not proved). "
+         "abstract heap semantics of the effect language is defined in Coq (big-step relation, any statement may stop, so all prefixes are covered); "
+         "soundness of the checker w.r.t. it is proved for every program of the statement language (C19_safe_sound: accepted => in every execution from "
+         "every initial heap every logged write is to storage allocated during the call; invariant preservation by every expression and statement, loops "
+         "by the checked post-fixpoint, calls by the depth fuel, out of fuel = rejected; C19_report_sound: a non-empty report attributes every write to pre-existing storage to the region "
+         "of a reported parameter), and combined with the generated obligation in C19_entry_points_do_not_write_caller_storage / "
+         "C19_entry_points_write_at_most_recorded_parameters. A model diagnostic (dead_uses: variables unbound in every execution, where the "
+         "semantics would be stuck and the theorem silent) is reported in the evidence and is empty. "
          "Tie: every public entry point is called on small inputs with deep snapshots (graphs incl. attributes, containers, arrays incl. "
          "shape/dtype/flags) before/after and called again on the same objects; static and dynamic verdicts must agree per function and parameter.",
     design='DESIGN.md section 4, C19; section 2.4(b)',
@@ -65,6 +70,7 @@ def static_report(table, nproc=6):
                'Definition one (n : string) := filter (fun fd => String.eqb (fn_name fd) n) eon_program.\n')
         for n in names[i::nproc]:
             src += 'Eval vm_compute in (report eon_program (one "%s")).\n' % n
+            src += 'Eval vm_compute in (dead_report eon_program (one "%s")).\n' % n
         open(os.path.join(GEN, 'EffectsReport%d.v' % i), 'w').write(src)
         procs.append(subprocess.Popen('timeout 900 coqc -Q . EoNV Gen/EffectsReport%d.v' % i, shell=True, cwd=C.COQ,
                                       stdout=subprocess.PIPE, stderr=subprocess.STDOUT, text=True))
@@ -76,6 +82,12 @@ def static_report(table, nproc=6):
         params = None if mp == 'None' else re.findall(r'"(\w+)"', plist or '')
         wl = [(int(a), b) for a, b in re.findall(r'\(\s*(\d+), "(\w+)"\)', lines)]
         rep[n] = {'public': pub == 'true', 'mutated': params, 'writes': sorted(set(wl))}
+    # model diagnostics: uses of a variable that is unbound in every execution of the model
+    # (the semantics is stuck there, so the soundness theorem does not cover the code after it)
+    for m in re.finditer(r'= \[\("(\w+)", (Some \[(.*?)\]|None)\)\] : list \(string \* option', txt):
+        n, dd, body = m.groups()
+        if n in rep:
+            rep[n]['dead_uses'] = None if dd == 'None' else sorted(set((int(a), int(b)) for a, b in re.findall(r'\(\s*(\d+), (\d+)\)', body or '')))
     missing = [n for n in names if n not in rep]
     if missing:
         return None, 'no verdict for %s: %s' % (missing[:5], txt[-1500:])
@@ -462,6 +474,8 @@ def run(run, tier):
             'static_s': round(t_static, 1), 'dynamic_s': round(time.time() - t1, 1)}
     extra = {'distribution': dist,
              'static_verdicts': {n: static[n] for n in static if static[n]['mutated'] != []} if static else None,
+             'model_dead_uses': ({n: static[n].get('dead_uses', 'not-computed') for n in static if static[n].get('dead_uses', 'not-computed') != []}
+                                 if static else None),
              'functions_translated': len(table['functions']) if table else 0,
              'statements': sum(f['statements'] for f in table['functions']) if table else 0,
              'translator_notes': table['notes'] if table else [msg],
